@@ -64,7 +64,7 @@ def run(chk):
                    expected=len(fields), found=len(r) if isinstance(r, list) else type(r).__name__)
             continue
         decoded.append((key, r))
-    latt_tr, c2l = latt_tables(chk, sg, so)
+    latt_tr, latt_of = latt_tables(chk, sg, so)
 
     if chk.want("T02.1"):
         sorted_needed = r02_1(chk, sg, emit=False)
@@ -140,7 +140,7 @@ def run(chk):
     if chk.want("T02.5"):
         for rid, (r, ops, codes) in groups.items():
             cen = r[fidx["centering"]]
-            latt = c2l.get(cen)
+            latt = latt_of(r, fidx)
             ok = latt is not None and latt in latt_tr
             miss = None
             if ok:
@@ -150,7 +150,7 @@ def run(chk):
                         ok = False
                         miss = tw
             chk.ob("T02.5", TABLE, f"setting {rid}", f"centring '{cen}' (LATT {latt}): its translations are pure translations of the group",
-                   ok, fingerprint=f"centring:{rid}", found=f"missing translation {miss}/12" if miss else f"centring {cen!r} unknown")
+                   ok, fingerprint=f"centring:{rid}", found=f"missing translation {miss}/12" if miss else f"centring {cen!r}: |LATT| not defined")
     if chk.want("R02.1"):
         r02_1(chk, sg, emit=True)
     if chk.want("R02.3"):
@@ -186,14 +186,32 @@ def latt_tables(chk, sg, so):
         out[kk] = vecs
     # centering_to_latt inside SpaceGroup.latt
     lv = sg.ev("SpaceGroup.latt")
-    c2l = None
-    for e in lv.events:
-        if e.kind == "assign" and e.name == "centering_to_latt":
-            items = dict_items(e.value)
-            if items:
-                c2l = {k: int(v.const_value()) for k, _, v in items}
-    chk.need(c2l is not None, "SpaceGroup.latt: centering_to_latt literal not found")
-    return out, c2l
+    # |LATT| of a setting as the property computes it: the symbolic return value evaluated on the row's fields
+    from ..concrete import concrete, NotConcrete
+    iv = sg.ev("SpaceGroup.__init__")
+    attr_field = {}
+    for e in iv.events:
+        if e.kind == "store" and e.target.key().startswith("self.") and e.value.as_atom() and e.value.as_atom()[0] == "attr" \
+                and "sgdata" in e.value.as_atom()[1].key():
+            attr_field[e.target.key()] = e.value.as_atom()[2]
+    mags = {}
+    for r in lv.returns:
+        v = r.value
+        if v.is_poly() and len(v.n) == 1 and list(v.n.values())[0] in (1, -1):
+            v = v * list(v.n.values())[0]
+        mags[v.key()] = v
+    chk.need(len(mags) == 1, f"SpaceGroup.latt: the returns do not share one magnitude: {sorted(mags)}")
+    mag = list(mags.values())[0]
+
+    def latt_of(row, fidx):
+        env = {a: row[fidx[f]] for a, f in attr_field.items() if f in fidx}
+        try:
+            return abs(int(concrete(mag, env)))
+        except NotConcrete:
+            return None
+        except Exception as ex:
+            raise AnalysisError(f"SpaceGroup.latt: magnitude {str(mag)[:80]} cannot be evaluated on a table row: {ex!r}")
+    return out, latt_of
 
 
 def r02_1(chk, sg, emit=True):
@@ -335,6 +353,15 @@ def r02_6(chk, sg, so, groups, fidx):
         chk.ob("R02.6", SO, "expanded_symmetry_list", "the identity is added only when it is absent from the whole reduced list (membership test), "
                "so no operation appears twice in the expansion", okg, node=e.node, fingerprint="identity-once",
                expected="if identity not in reduced_symops", found=[("" if p else "not ") + str(c)[:80] for c, p in e.guards])
+    # the caller's reduced list is completed by the identity at most (idempotent); it must not receive the expansion itself,
+    # or a second expansion from the same list starts from a different description
+    from ..effects import param_mutations
+    muts = param_mutations(chk.repo, so, "expanded_symmetry_list").get(red, [])
+    allowed = {f"line {getattr(e.node, 'lineno', '?')}:" for e in ins}
+    extra = [m for m in muts if not any(m.startswith(a) for a in allowed)]
+    chk.ob("R02.6", SO, "expanded_symmetry_list", "the caller's reduced list is not modified beyond the guarded completion by the identity "
+           "(the expansion is built in a list of its own)", not extra, fingerprint="reduced-list-unchanged",
+           expected="full_symops = [] (a new list)", found=extra)
     app = [e for e in xv.events if e.kind == "call" and e.target is not None and e.target.key().endswith("full_symops@1>.append") or
            (e.kind == "call" and e.target is not None and ".append" in e.target.key() and "full_symops" in e.target.key())]
     vals = [str(e.extra["args"][0]) for e in app]
